@@ -399,6 +399,7 @@ func c16(run *ev.Run) int {
 		c16Case(run, s, key)
 	})
 	c16Layered(run)
+	c16SharedValue(run)
 	return run.Finish("calls", "phases.compared")
 }
 
@@ -584,6 +585,97 @@ func c16Layered(run *ev.Run) {
 										map[string]any{"wrapper": wrapper, "depth": depth, "leaves": leaves, "interceptors_per_layer": perLayer, "side": side, "client_err": errStr(cl.Err)})
 									break
 								}
+							}
+						}
+					}
+				}
+			}
+		}
+	}
+}
+
+// c16SharedValue: one option value (say, common := WithInterceptors(logging))
+// is part of several option lists, each with its own interceptors before and
+// after it; clients and handlers are built from those lists one after another.
+// What one list did with the value must not show in the next: every object runs
+// the interceptors of its own list, in its order.
+func c16SharedValue(run *ev.Run) {
+	for _, wrap := range []string{"plain", "WithOptions", "side"} {
+		for _, nShared := range []int{1, 2} {
+			for _, users := range []int{2, 3} {
+				key := fmt.Sprintf("c16/shared-value/wrap=%s/shared-interceptors=%d/users=%d", wrap, nShared, users)
+				if !run.Want(key) {
+					continue
+				}
+				for _, side := range []string{"h", "c"} {
+					log := &c16Log{}
+					var sharedIDs []int
+					var sharedList []connect.Interceptor
+					for k := 0; k < nShared; k++ {
+						sharedIDs = append(sharedIDs, 50+k)
+						sharedList = append(sharedList, &c16Icept{id: 50 + k, side: side, log: log})
+					}
+					common := connect.WithInterceptors(sharedList...)
+					type user struct {
+						h    []connect.HandlerOption
+						c    []connect.ClientOption
+						flat []int
+					}
+					var us []user
+					for u := 0; u < users; u++ {
+						own := 10 * (u + 1)
+						before := connect.WithInterceptors(&c16Icept{id: own, side: side, log: log})
+						after := connect.WithInterceptors(&c16Icept{id: own + 1, side: side, log: log})
+						flat := append(append([]int{own}, sharedIDs...), own+1)
+						if u == users-1 && users == 3 {
+							// the last user has nothing in front of the shared value
+							flat = flat[1:]
+							before = connect.WithInterceptors()
+						}
+						var x user
+						x.flat = flat
+						switch wrap {
+						case "plain":
+							x.h = []connect.HandlerOption{before, common, after}
+							x.c = []connect.ClientOption{before, common, after}
+						case "WithOptions":
+							o := connect.WithOptions(before, connect.WithOptions(common), after)
+							x.h, x.c = []connect.HandlerOption{o}, []connect.ClientOption{o}
+						default:
+							x.h = []connect.HandlerOption{connect.WithHandlerOptions(before, common), after}
+							x.c = []connect.ClientOption{connect.WithClientOptions(before, common), after}
+						}
+						us = append(us, x)
+					}
+					for ui, x := range us {
+						reg := svc.NewRegistry()
+						var hopts []connect.HandlerOption
+						var copts []connect.ClientOption
+						if side == "h" {
+							hopts = x.h
+						} else {
+							copts = x.c
+						}
+						hs := svc.Handlers(reg, hopts...)
+						cs := svc.NewClientSet(&wire.Loopback{Handler: svc.Mux(hs)}, "http://verif.local", copts...)
+						for _, kind := range []svc.Kind{svc.Unary, svc.ServerStream} {
+							call := reg.New("c16s", &svc.Program{Steps: []svc.Step{{Op: "recv"}, {Op: "send", Msg: &gen.Msg{Id: 2}}}})
+							cl := cs.Do(context.Background(), kind, call.ID, nil, []*gen.Msg{{Id: 1}})
+							reg.Drop(call)
+							run.Count("calls", 1)
+							run.Eval(fmt.Sprintf("shared-value|%s|%d|%d|%s|%s|user=%d", wrap, nShared, users, side, kind, ui))
+							got := log.take()
+							want := c16Expected(side, kind, x.flat)
+							phases := []string{side + ".unary.req", side + ".unary.res", side + ".stream.wrap", side + ".stream.send", side + ".stream.recv"}
+							if side == "h" {
+								phases = []string{side + ".unary.req", side + ".unary.res", side + ".stream.wrap", side + ".stream.recv", side + ".stream.send"}
+							}
+							gotSorted := sortPhases(got, phases)
+							run.Count("phases.compared", int64(len(phases)))
+							if cl.Err != nil || fmt.Sprint(gotSorted) != fmt.Sprint(want) || len(gotSorted) != len(got) {
+								run.Violation(fmt.Sprintf("%s/%s/user=%d/%s", key, side, ui, kind), fmt.Sprintf("object %d of %d built from lists that share one WithInterceptors value ran %v, its own list predicts %v", ui+1, users, gotSorted, want),
+									map[string]any{"wrap": wrap, "side": side, "shared_ids": sharedIDs, "client_err": errStr(cl.Err)})
+								break
 							}
 						}
 					}
